@@ -40,8 +40,11 @@ def split_blob(blob):
     return m.get_string(), m.get_binary()
 
 
-def content_of(kind, blob):
-    """what a blob *carries*: used to decide whether a mutant is an altered signature or only re-framed"""
+def content_of(kind, blob, keybytes=0):
+    """what a blob *carries*: used to decide whether a mutant is an altered signature or only re-framed.
+    RSA: a signature shorter than the modulus counts as its zero-left-padded form (the documented PuTTY tolerance);
+    a signature string LONGER than the modulus is kept verbatim - it is not the genuine signature, whatever its
+    leading bytes are."""
     from paramiko.message import Message
 
     try:
@@ -50,7 +53,7 @@ def content_of(kind, blob):
         return ("unparsable",)
     if kind == "rsa":
         a = alg.decode("utf-8", "replace").replace(lk.CERT, "")
-        return (a, int.from_bytes(sig, "big"))
+        return (a, sig.rjust(keybytes, b"\x00"))
     if kind == "ec":
         m = Message(sig)
         return (alg, m.get_mpint(), m.get_mpint())
@@ -114,6 +117,17 @@ def mutants(rng, kind, alg, sig, extra=None):
         yield "len-lie:alg", ln.to_bytes(4, "big") + alg + lk.sstr(sig)
     else:
         yield "len-lie:sig", lk.sstr(alg) + ln.to_bytes(4, "big") + sig
+    # length-changing edits of the signature string itself (every key type)
+    junk = rng.randbytes(rng.randrange(1, 5))
+    nz = bytes([rng.randrange(1, 256)]) + rng.randbytes(rng.randrange(0, 3))
+    yield "sig:prepend-nonzero", mk_blob(alg, nz + sig)
+    yield "sig:prepend-zero", mk_blob(alg, b"\x00" * rng.randrange(1, 4) + sig)
+    yield "sig:append", mk_blob(alg, sig + junk)
+    yield "sig:append-zero", mk_blob(alg, sig + b"\x00")
+    yield "sig:drop-leading", mk_blob(alg, sig[rng.randrange(1, 3):])
+    yield "sig:drop-trailing", mk_blob(alg, sig[:-rng.randrange(1, 3)])
+    yield "sig:duplicate", mk_blob(alg, sig + sig)
+    yield "sig:prepend-copy", mk_blob(alg, sig[: rng.randrange(1, max(2, len(sig)))] + sig)
     # signature field
     if kind == "rsa":
         yield "sig:rsa-stripped", mk_blob(alg, sig.lstrip(b"\x00"))
@@ -449,7 +463,8 @@ def real_stream(ctx):
                     ctx.fail("sign-raises:%s:%s" % (kind, exc_site(e)), case0, repr(e))
                     continue
                 a, sig = split_blob(blob)
-                genuine = content_of(kind, blob)
+                kb = (signer.get_bits() + 7) // 8 if kind == "rsa" else 0
+                genuine = content_of(kind, blob, kb)
                 # every object of the same key, every route
                 for route, v in routes:
                     res = lk.call_verify(v, data, blob)
@@ -494,9 +509,9 @@ def real_stream(ctx):
                     elif res[1] not in (True, False):
                         ctx.fail("verify-non-bool:" + kind, case, repr(res[1]))
                     elif res[1] is True:
-                        if content_of(kind, mb) != genuine:
+                        if content_of(kind, mb, kb) != genuine:
                             ctx.fail("accepted-altered-signature:%s" % kind, case,
-                                     "carried content %r differs from the genuine %r" % (content_of(kind, mb), genuine))
+                                     "carried content %r differs from the genuine %r" % (content_of(kind, mb, kb), genuine))
                         else:
                             ctx.dist("real:accepted-reframed-same-content:" + mlabel)
                     if len(ctx.samples) < 6 and mlabel.startswith("sig:"):
